@@ -2000,3 +2000,115 @@ Proof.
       * rewrite (Hlkn x Ei) in Lx. destruct (sidx x P) as [j|] eqn:Ej; cbn in Ex; [|discriminate].
         destruct (Hhigh j x (sidx_nth _ _ _ Ej)) as (a' & c & La & Hr & _). right. exists c. congruence.
 Qed.
+
+(* ================================================================================================================ *)
+(* Part D: the simulation, by induction on the fuel *)
+Definition simE (n : nat) : Prop :=
+  forall sc k e e' k' en, cexprT sc k e = Some (e', k') -> simF en sc (eval n en e) (seval n e').
+Definition simC (n : nat) : Prop :=
+  forall f pos named, csim (call n f pos named) (scall n f pos named).
+Definition simX (n : nat) : Prop :=
+  forall sc k st st' k' en, cstmtT sc k st = Some (st', k') -> simF en sc (exec n en st) (sexec n st').
+
+Lemma call_finish en' sc' r r1 s s1 t t1 (X : res value) (Y : sres value) :
+  sub r r1 -> (forall a, dom r1 a -> dom r a \/ length (cells s) <= a) ->
+  length (cells s) <= length (cells s1) ->
+  (forall a, a < length (cells s) -> nth_error (cells s1) a = nth_error (cells s) a) ->
+  (forall a, own en' sc' a -> length (cells s) <= a \/ dom r a) ->
+  rresF en' sc' r1 s1 t1 X Y ->
+  rres noframe nocells FPc r s t X
+       (match Y with SOk v t2 => SOk v (with_cur t2 (cur t)) | SFail e l t2 => SFail e l t2 | SOutOfFuel => SOutOfFuel end).
+Proof.
+  intros Hs Hd Hl Ho Hown H. unfold rres in *. destruct X as [v s2|e l s2|].
+  - destruct Y as [w t2|?|]; try contradiction. destruct H as [<- (r2 & G2 & F2 & [P1 P2 P3 P4] & Q2)].
+    split; [reflexivity|]. exists r2. split; [apply GInv_cur; exact G2|]. split; [exact Logic.I|]. split; [|reflexivity].
+    constructor.
+    + eapply sub_trans; eassumption.
+    + lia.
+    + intros a Ha _ Hda Hg. rewrite P3; auto; [lia| |].
+      * intros Hown'. destruct (Hown a Hown') as [?|?]; [lia|contradiction].
+      * intros Hd1. destruct (Hd a Hd1) as [?|?]; [contradiction|lia].
+    + intros a Hd2. destruct (P4 a Hd2) as [H|[H|H]].
+      * destruct (Hd a H); auto.
+      * right. left. lia.
+      * destruct (Hown a H); auto.
+  - destruct (is_unbound e); auto. destruct Y; try contradiction. exact H.
+  - destruct Y; try contradiction. exact Logic.I.
+Qed.
+
+Lemma call_clo_body n cl scl bs r s t :
+  simE n -> simX n -> GInv r s t -> clo_rel r (length (cells s)) cl scl ->
+  (forall b, In b bs -> In (fst b) (map param_name (c_params cl))) ->
+  rres noframe nocells FPc r s t
+    ((nw <- alloc_cells (Sem.dedup (map param_name (c_params cl) ++ locals_of (c_body cl))) ;;
+      mapM (fun b => match lookup (fst b) nw with Some a => set_cell a (snd b) | None => ret tt end) bs ;;;
+      match c_body cl with
+      | BExpr e => eval n (nw ++ c_env cl) e
+      | BStmts ss => c <- run_block (exec n (nw ++ c_env cl)) ss ;; match c with CReturn v => ret v | _ => ret VNone end
+      end) s)
+    ((saved <~ get_cur ;;
+      set_cur (repeat FEmpty (di_nslots (sc_info scl))) ;;~
+      smapM (fun b => match sidx (fst b) (di_names (sc_info scl)) with
+                      | Some i => set_slot i (FVal (snd b)) | None => sret tt end) bs ;;~
+      smapM wrap_slot (di_wrap (sc_info scl)) ;;~
+      smapM (fun pc => set_slot (fst pc) (FCell (snd pc))) (combine (map snd (di_parents (sc_info scl))) (sc_captured scl)) ;;~
+      r <~ match sc_body scl with
+           | SBExpr e => seval n e
+           | SBStmts ss => c <~ srun_block (sexec n) ss ;; match c with CReturn v => sret v | _ => sret VNone end
+           end ;;
+      set_cur saved ;;~ sret r) t).
+Proof.
+  intros IHe IHx G CR Hbs.
+  destruct (call_setup r s t cl scl bs G CR Hbs) as (sc' & n0 & new & s1 & t1 & r1 & Hb & En & Es & G1 & F1 & Hs & Hd & Hl & Ho & Hown).
+  rewrite (En _ (fun nw => match c_body cl with
+      | BExpr e => eval n (nw ++ c_env cl) e
+      | BStmts ss => c <- run_block (exec n (nw ++ c_env cl)) ss ;; match c with CReturn v => ret v | _ => ret VNone end
+      end)).
+  unfold sbind at 1. unfold get_cur at 1. rewrite Es.
+  set (BN := match c_body cl with BExpr e => _ | BStmts ss => _ end).
+  set (BS := match sc_body scl with SBExpr e => _ | SBStmts ss => _ end).
+  assert (HB : simF (new ++ c_env cl) sc' BN BS).
+  { unfold BN, BS, body_compiled in *. destruct (c_body cl) as [ss|e], (sc_body scl) as [ss'|e']; try contradiction.
+    - apply sim_bind; [apply okF| |].
+      + apply sim_run_block; [apply okF|]. apply omapS_Forall2 in Hb.
+        eapply Forall2_impl'; [|exact Hb]. intros st st' (k1 & k2 & Hst). eapply IHx; eauto.
+      + intros c. destruct c; apply sim_ret; apply okF.
+    - eapply IHe; eauto. }
+  specialize (HB r1 s1 t1 G1 F1).
+  pose proof (call_finish _ _ r r1 s s1 t t1 _ _ Hs Hd Hl Ho Hown HB) as Hfin.
+  unfold sbind at 1. destruct (BS t1) as [v t2|e l t2|]; exact Hfin.
+Qed.
+
+Lemma nodupb_NoDup l : nodupb l = true -> NoDup l.
+Proof.
+  unfold nodupb. intros H. apply Nat.eqb_eq in H.
+  apply NoDup_incl_NoDup with (l := dedup l); [apply Proofs.dedup_NoDup|lia|].
+  intros x Hx. apply Proofs.dedup_In in Hx. exact Hx.
+Qed.
+
+Lemma pure_sorted_tail (named : list (string * value)) (ks xs : list value) :
+  pure_op (st <- get_state ;;
+           let reverse := match assoc_str "reverse" named with Some r => truth st r | None => false end in
+           match sort_pairs_dir st reverse (combine ks xs) with
+           | Some r => alloc_list (map snd r)
+           | None => fail TypeErr
+           end).
+Proof.
+  apply pure_get_state.
+  - intros s0. cbv zeta. destruct (sort_pairs_dir s0 _ (combine ks xs)); pure_tac.
+  - intros c k s0 s1. cbv zeta. destruct (assoc_str "reverse" named); sw_rw; reflexivity.
+Qed.
+
+Lemma pure_dstar v : pure_op (match v with
+  | VDict d => kvs <- get_dict d ;; mapM (fun kv => match fst kv with VStr k => ret (k, snd kv) | _ => fail TypeErr end) kvs
+  | _ => fail TypeErr end).
+Proof. destruct v; pure_tac. Qed.
+
+Lemma pure_list_acc acc v : pure_op (match acc with VList a => xs <- get_list a ;; set_list a (xs ++ [v]) | _ => ret tt end).
+Proof. destruct acc; pure_tac. Qed.
+Lemma pure_dict_acc acc k v : pure_op (match acc with
+  | VDict a => d <- get_dict a ;; s <- get_state ;; set_dict a (dict_set s d k v)
+  | _ => ret tt end).
+Proof. destruct acc; pure_auto. Qed.
+Lemma pure_dict_lit ps : pure_op (s <- get_state ;; alloc_dict (dict_update s [] ps)).
+Proof. pure_auto. Qed.
